@@ -265,6 +265,7 @@ pub fn analyse_session(case: &Case, out: &Outcome) -> Analysis {
     let mut readyok_seen = 0u32;
     let mut quit_read = false;
     let mut eof_read = false;
+    let mut end_read_seq: Option<u64> = None; // when `quit` or EOF was read
     let role = |t: Tid| out.threads.get(t).map(|x| x.role).unwrap_or(Role::Unknown);
 
     // finalises the command main was processing
@@ -413,6 +414,7 @@ pub fn analyse_session(case: &Case, out: &Outcome) -> Analysis {
                     }
                     "quit" => {
                         quit_read = true;
+                        end_read_seq.get_or_insert(e.seq);
                         if outstanding.is_some() {
                             a.probe("quit read while a search was outstanding");
                         }
@@ -434,6 +436,7 @@ pub fn analyse_session(case: &Case, out: &Outcome) -> Analysis {
             EvK::ReadEof => {
                 finalize!();
                 eof_read = true;
+                end_read_seq.get_or_insert(e.seq);
                 if outstanding.is_some() {
                     a.probe("EOF read while a search was outstanding");
                 }
@@ -698,6 +701,17 @@ pub fn analyse_session(case: &Case, out: &Outcome) -> Analysis {
                         a.v("C14", "R3-no-bestmove-at-depth-limit", g.cmd, format!("`{}` reached depth {} but announced its move only {} ns later", g.line, g.infos[i].1, g.best_t - t_info));
                     }
                 }
+            }
+        }
+        // a search without any limit keeps deepening for as long as it is left running: it may answer by itself only
+        // when there is nothing left to search (no or one legal move, a forced mate found, the engine's deepest iteration)
+        if g.depth.is_none() && g.movetime.is_none() && g.clocks.is_none() && g.n_best > 0 {
+            let left_alone = g.stop_read_seq.map_or(true, |s| s > g.best_seq) && end_read_seq.map_or(true, |s| s > g.best_seq) && g.timer_store_seq.is_none();
+            let legal = g.root.as_ref().map(|p| p.legal_moves().len());
+            let last_score: Option<i64> = g.outs.iter().rev().find_map(|l| l.strip_prefix("info score cp ").and_then(|x| x.trim().parse().ok()));
+            let deepest = g.infos.iter().map(|x| x.1).max().unwrap_or(0);
+            if left_alone && g.root_known && legal.map_or(false, |n| n >= 2) && deepest >= 1 && deepest < 30 && last_score.map_or(false, |x| x.abs() < 31_000) {
+                a.v("C08", "R4-unlimited-search-ended-by-itself", g.cmd, format!("`{}`: nobody stopped it, yet it answered after iteration {} (score {}, {} legal moves at the root)", g.line, deepest, last_score.unwrap_or(0), legal.unwrap_or(0)));
             }
         }
         for w in g.infos.windows(2) {
